@@ -901,6 +901,8 @@ func (em *emitter) emitUnaryOp(expr *ast.UnaryOperator, reg int8, regType reflec
 	// *operand
 	case ast.OperatorPointer:
 		exprReg := em.emitExpr(operand, operandType)
+		// The indirection panics if the pointer is nil.
+		em.fb.addPosAndPath(expr.Pos())
 		if canEmitDirectly(exprType.Kind(), regType.Kind()) {
 			em.changeRegister(false, -exprReg, reg, operandType.Elem(), regType)
 			return
